@@ -247,21 +247,48 @@ def r12c(ctx):
     # gradient-cutting operations on the PIT cost path
     cut_methods = ('detach', 'item', 'tolist', 'numpy')
     n = 0
+    # functions on the PIT cost path: closure, from get_modified_vars of every PIT layer and
+    # from the features calculators, over property reads and method calls on self and on the
+    # maskers held by self
     pit_fns: List[Tuple[str, FunctionInfo]] = []
-    for m in masker_classes(repo):
-        g = m.getters.get('theta')
-        if g is not None:
-            pit_fns.append((f'{m.name}.theta', g))
+    seen_fn = set()
+
+    def visit(ci: ClassInfo, fn: FunctionInfo, label: str):
+        if fn.qualname in seen_fn or len(seen_fn) > 400:
+            return
+        seen_fn.add(fn.qualname)
+        pit_fns.append((label, fn))
+        for p in returning(paths(repo, fn)):
+            terms = [p.retval] + [x for e in p.events for x in e.data if isinstance(x, tuple)]
+            for t in terms:
+                for x in subterms(t):
+                    if x[0] != 'attr':
+                        continue
+                    if x[1] == SELF:
+                        g = repo.find_getter(ci, x[2])
+                        m = repo.find_method(ci, x[2])
+                        if g is not None:
+                            visit(ci, g, f'{ci.name}.{x[2]}')
+                        elif m is not None and m.kind == 'method' and \
+                                m.module.name.startswith('plinio.'):
+                            visit(ci, m, f'{ci.name}.{x[2]}')
+                    elif x[1][0] == 'attr' and x[1][1] == SELF:
+                        for hc in attr_classes(repo, ci, x[1][2]):
+                            for sc in repo.subclasses(hc):
+                                g = repo.find_getter(sc, x[2])
+                                if g is not None:
+                                    visit(sc, g, f'{sc.name}.{x[2]}')
+    # only layer kinds for which some built-in metric registers a cost function are on a
+    # cost path (no built-in spec prices BatchNorm: its discrete feature count is never
+    # differentiated)
+    priced = {reg.layer_type.split('.')[-1] for si in cost_specs(repo).values() for reg in si.regs}
+    from .c01 import layer_kind
     for ci in pit_layer_classes(repo):
-        for name in ('out_features_eff', 'k_eff'):
-            if name in ci.getters:
-                pit_fns.append((f'{ci.name}.{name}', ci.getters[name]))
-        for name in ('_features_mask', '_time_mask', 'get_modified_vars'):
-            if name in ci.methods:
-                pit_fns.append((f'{ci.name}.{name}', ci.methods[name]))
+        if 'get_modified_vars' in ci.methods and layer_kind(ctx, ci) in priced:
+            visit(ci, ci.methods['get_modified_vars'], f'{ci.name}.get_modified_vars')
     for c in repo.subclasses(repo.cls('FeaturesCalculator'), strict=True):
         if 'features' in c.getters:
-            pit_fns.append((f'{c.name}.features', c.getters['features']))
+            visit(c, c.getters['features'], f'{c.name}.features')
     for label, fn in pit_fns:
         n += 1
         cuts = []
